@@ -164,3 +164,60 @@ Definition split (ms : list rmsg) (firstMsgAt : nat) : list rmsg * nat * N :=
 Definition received (r : list rmsg * nat * N) : list (list N * N) :=
   let '(ms, n, _) := r in
   map (fun m => (firstn (N.to_nat (r_n m)) (r_buf m), r_addr m)) (firstn n ms).
+
+(* ------------------------------------------------------------------ *)
+(* Glue around the core: StdNetBind.send and the GSO-disable retry      *)
+(* ------------------------------------------------------------------ *)
+
+(* What one WriteBatch (sendmmsg) call does is the kernel's choice: it accepts
+   the first k of the messages offered (k >= 1 unless it fails), or fails. *)
+Inductive wres := WOk (k : nat) | WErr.
+
+(* for { n, err = pc.WriteBatch(msgs[start:], 0);
+         if err != nil || n == len(msgs[start:]) { break }; start += n }
+   Result: the messages accepted, in the order accepted, and err != nil.
+   [fuel] bounds the number of calls (the oracle list does too). *)
+Fixpoint send_loop {A} (fuel : nat) (msgs : list A) (start : nat) (oracle : list wres) : list A * bool :=
+  match fuel, oracle with
+  | S f, r :: o =>
+      let rest := skipn start msgs in
+      match r with
+      | WErr => ([], true)
+      | WOk k =>
+          let n := Nat.min k (length rest) in
+          if Nat.eqb n (length rest) then (firstn n rest, false)
+          else let '(t, e) := send_loop f msgs (start + n) o in (firstn n rest ++ t, e)
+      end
+  | _, _ => ([], false)
+  end.
+
+(* setSrcControl on a pooled message that may still carry the control data of
+   an earlier attempt: nothing at all if the capacity is too small, else
+   truncate to 0 and append ep.src (which also removes a UDP_SEGMENT message) *)
+Definition set_src_over (c : cfg) (m : msg) : list N * list N :=
+  if c_oobcap c <? len (c_src c) then (m_oob m, m_gso m) else (c_src c, []).
+
+(* Send, branch without offload: msgs[i] = {Addr: ua, Buffers[0]: bufs[i]},
+   setSrcControl(&msgs[i].OOB, ep); [pre] is the state of the pooled vector
+   (after a first, merged attempt when the branch is reached through retry) *)
+Fixpoint unmerged (c : cfg) (pre : list msg) (bufs : list buf) : list msg :=
+  match bufs with
+  | [] => []
+  | b :: r =>
+      let p := match pre with [] => {| m_data := []; m_cap := 0; m_oob := []; m_gso := []; m_addr := 0 |} | p :: _ => p end in
+      let '(oob, gso) := set_src_over c p in
+      {| m_data := b_data b; m_cap := b_cap b; m_oob := oob; m_gso := gso; m_addr := c_addr c |}
+        :: unmerged c (tl pre) r
+  end.
+
+(* Send with offload available whose first attempt ends with an error for
+   which errShouldDisableUDPGSO holds: offload is switched off and the batch is
+   sent again, one message per datagram, from the same pooled vector.
+   Result: what the two attempts hand to the kernel. *)
+Definition send_with_gso_disable (c : cfg) (bufs : list buf) (oracle1 oracle2 : list wres)
+  : list msg * list msg * bool :=
+  let first := coalesce c bufs in
+  let '(t1, _) := send_loop (S (length first)) first 0 oracle1 in
+  let second := unmerged c (first ++ repeat {| m_data := []; m_cap := 0; m_oob := []; m_gso := []; m_addr := 0 |} (length bufs)) bufs in
+  let '(t2, e2) := send_loop (S (length second)) second 0 oracle2 in
+  (t1, t2, e2).
